@@ -83,6 +83,9 @@ pub struct Profile {
     /// namespace URIs whose zeep abbreviation would be the reserved prefix `xml`
     #[serde(default)]
     pub reserved_prefix_uris: bool,
+    /// WSDLs whose own target namespace differs from their inline schema's, and several inline schemas
+    #[serde(default)]
+    pub wsdl_shapes: bool,
 }
 
 fn yes() -> bool {
@@ -128,6 +131,7 @@ impl Profile {
             kind_mix: false,
             xml_lang: 0,
             reserved_prefix_uris: true,
+            wsdl_shapes: true,
         }
     }
     /// switch a feature off by its tag name; returns false for an unknown tag
@@ -1028,6 +1032,13 @@ pub fn build(raw: &RawModel, p: &Profile) -> (Model, BuildStats) {
             if m.files[0].own_prefix.is_empty() {
                 m.files[0].own_prefix = "tns".into();
             }
+            // schemas inside one wsdl:types share the prefixes bound on the definitions element (a
+            // prefix re-bound on a nested schema element is outside the supported subset)
+            for j in &w.inline {
+                let k = m.files[0].imports.iter().position(|x| x == j).unwrap();
+                m.files[*j].own_prefix = m.files[0].import_prefixes[k].clone();
+                m.files[*j].xs_prefix = m.files[0].xs_prefix.clone();
+            }
             m.wsdl = Some(w);
             b.stats.feat("wsdl");
         }
@@ -1180,7 +1191,25 @@ fn build_wsdl(m: &Model, rw: &RawWsdl, p: &Profile, stats: &mut BuildStats) -> O
     if messages.iter().any(|msg| msg.parts.iter().any(|pt| pt.element.file != 0)) {
         stats.feat("wsdl.part-in-imported-namespace");
     }
+    // files that only the start file imports, and that import nothing themselves, may live inside
+    // wsdl:types as schemas of their own
+    let inline: Vec<usize> = if p.wsdl_shapes && rw.addr / 21 % 2 == 0 {
+        m.files[0].imports.iter().copied().filter(|j| m.files[*j].imports.is_empty() && !m.files.iter().enumerate().any(|(k, f)| k != 0 && f.imports.contains(j)) && m.files[*j].ns != m.files[0].ns).collect()
+    } else {
+        vec![]
+    };
+    if !inline.is_empty() {
+        stats.feat("wsdl.several-inline-schemas");
+    }
+    let own_ns = if p.wsdl_shapes && rw.addr / 7 % 3 == 0 {
+        stats.feat("wsdl.own-namespace-differs-from-schema");
+        Some(format!("{}/service", m.files[0].ns.trim_end_matches('/')))
+    } else {
+        None
+    };
     Some(Wsdl {
+        own_ns,
+        inline,
         messages,
         operations,
         port_type: Name::canonical(&["main", "port", "type"], Style::UpperCamel),
